@@ -8,7 +8,7 @@ RULE = ("interleavings: TLC checks Isolation and ModulePrivacy for 2 and 3 VMs a
         "solo results; free-running: 16 goroutines x rounds x 11 programs, every round on Bytecode no VM has run before (builtin-module and source-module mutation, closures, "
         "try/finally loops, thrown and runtime errors raised by every VM at another place of the same shared functions and formatted with %+v, Invoker callbacks on pooled child VMs, sprintf) on shared Bytecode in a "
         "binary built with the race detector: a result different from the solo result or a race report is a violation; "
-        "non-trivial = interleavings in which the two VMs alternate at least once")
+        "non-trivial = interleavings in which the two VMs alternate at least once; four programs calling fmt / strings / json / time module functions with operands of each VM's own")
 
 def run(ctx):
     out = ctx.path("sched.ndjson")
